@@ -7,6 +7,7 @@ package c17
 
 import (
 	"context"
+	"errors"
 	"fmt"
 	"math/rand/v2"
 	"runtime"
@@ -96,6 +97,62 @@ func TestOnceStress(t *testing.T) {
 			}
 		}
 	})
+	// interface-typed results, including a nil interface and a nil pointer: every caller - also one that
+	// arrives long after the construction - receives exactly what the constructor returned
+	sentinel := errors.New("constructed")
+	for round := 0; round < r.Pick(2000, 20000); round++ {
+		var n atomic.Int32
+		ocE := syncutil.NewOnceConstructor(func(k int) error {
+			n.Add(1)
+			if k%2 == 0 {
+				return nil
+			}
+			return sentinel
+		})
+		ocA := syncutil.NewOnceConstructor(func(k string) any {
+			if k == "" {
+				return nil
+			}
+			return (*obj)(nil)
+		})
+		var wg sync.WaitGroup
+		for g := 0; g < 4; g++ {
+			wg.Add(1)
+			go func() {
+				defer wg.Done()
+				for i := 0; i < 3; i++ {
+					for k := 0; k < 3; k++ {
+						p, pv := mon.Catch(func() {
+							want := error(nil)
+							if k%2 == 1 {
+								want = sentinel
+							}
+							if got := ocE.Get(k); got != want {
+								r.Violation("once-iface-value", fmt.Sprintf("OnceConstructor[int,error].Get(%d) = %v, the constructor returned %v", k, got, want), map[string]any{"key": k})
+							}
+							if got := ocA.Get(""); got != nil {
+								r.Violation("once-iface-any", fmt.Sprintf("OnceConstructor[string,any].Get(\"\") = %v, the constructor returned nil", got), map[string]any{"key": ""})
+							}
+							if got, ok := ocA.Get("p").(*obj); !ok || got != nil {
+								r.Violation("once-iface-nilptr", "OnceConstructor[string,any].Get(\"p\") did not return the typed nil pointer the constructor returned", map[string]any{"key": "p"})
+							}
+						})
+						if p {
+							r.Violation("once-iface-panic", fmt.Sprintf("OnceConstructor with an interface-typed result panicked on Get(%d) (call %d of goroutine %d): %v", k, i, g, pv), map[string]any{"key": k})
+						}
+						calls.Add(3)
+					}
+				}
+			}()
+		}
+		wg.Wait()
+		if c := n.Load(); c != 3 {
+			r.Violation("once-iface-count", fmt.Sprintf("constructor ran %d times for 3 keys", c), map[string]any{"round": round})
+		}
+		if r.TooMany() {
+			break
+		}
+	}
 	r.Eval(calls.Load())
 	r.NontrivialN(concurrentRounds.Load())
 	r.Count("rounds", int64(rounds))
